@@ -12,6 +12,7 @@ import z3
 TRACE = bool(os.environ.get('A5VERIF_TRACE'))
 
 from .values import tobool_const, zand, znot, zbool, Unsupported
+from . import ranges
 
 
 _HQ = {}
@@ -68,7 +69,8 @@ class PathResult:
 
 class Settings:
     def __init__(self, width=80, theory="bv", float_mode="concrete", branch_timeout_ms=20000,
-                 max_paths=20000, default_unroll=64):
+                 max_paths=20000, default_unroll=64, name_deep_terms=0):
+        self.name_deep_terms = name_deep_terms    # 0 = off; otherwise name bit-vector terms deeper than this
         self.width = width
         self.theory = theory
         self.float_mode = float_mode
@@ -91,6 +93,7 @@ class Explorer:
         self.branch_time = 0.0
         self.unknown_branches = 0
         self.fresh_counter = 0
+        self.ignore_prefix = 0      # feasibility checks skip this many leading path-condition conjuncts
 
     def explore(self, task):
         work = [[]]
@@ -116,7 +119,7 @@ class Explorer:
         # one-shot solver: z3 then selects the bit-blasting QF_BV tactic (the incremental core is ~10x slower here)
         s = z3.Solver()
         s.set("timeout", self.settings.branch_timeout_ms)
-        for p in pc_list:
+        for p in pc_list[self.ignore_prefix:]:
             # quantified hypotheses are dropped: feasibility is over-approximated, which is sound for proving
             if not has_quant(p):
                 s.add(p)
@@ -145,6 +148,8 @@ class Ctx:
         self.memo = {}          # per-path conversion memo for live module objects
         self.ghost = {}
         self.fresh_n = {}
+        ranges.reset_bounds()    # interval facts are per path
+        ranges._MEMO.clear()
         self.qreads = None      # array reads / uninterpreted applications seen while building a quantifier body
         self.sides = None       # definedness side conditions collected while evaluating a logical formula
 
@@ -165,6 +170,8 @@ class Ctx:
         if c is False:
             raise Killed()
         self.pc.append(cond)
+        if not isinstance(cond, bool):
+            ranges.learn(cond)
 
     def oblige(self, name, goal, where=None, kind="assert", extra=None, assume_after=True):
         if self.nofork:
@@ -198,6 +205,8 @@ class Ctx:
             c = cond
         else:
             c = tobool_const(cond)
+        if c is None:
+            c = ranges.decide(z3.simplify(cond))
         if c is True:
             raise PyRaise(exc, where)
         if c is False:
@@ -214,6 +223,9 @@ class Ctx:
         if isinstance(cond, bool):
             return cond
         c = tobool_const(cond)
+        if c is not None:
+            return c
+        c = ranges.decide(z3.simplify(cond))
         if c is not None:
             return c
         if self.nofork:
@@ -235,4 +247,5 @@ class Ctx:
                 raise Killed()
         self.decisions.append(choice)
         self.pc.append(cond if choice else z3.Not(cond))
+        ranges.learn(z3.simplify(cond if choice else z3.Not(cond)))
         return choice
